@@ -473,8 +473,11 @@ def main():
     if args.record:
         os.makedirs(os.path.join(VERIF, 'baseline'), exist_ok=True)
         bl = {r['harness']: sorted(r['named_ok']) for r in results if r['status'] == 'pass'}
-        if baseline and args.only:
-            baseline.update(bl); bl = baseline
+        # keep what was recorded for harnesses that did not run this time (other tier, --only): only the file of
+        # THIS property is rewritten, entries of harnesses that ran are replaced
+        own_path = os.path.join(VERIF, 'baseline', prop + '.json')
+        own = json.load(open(own_path)) if os.path.exists(own_path) else {}
+        own.update(bl); bl = own
         json.dump(bl, open(os.path.join(VERIF, 'baseline', prop + '.json'), 'w'), indent=1, sort_keys=True)
         baseline = bl
     violations = []; undecided = []; known_hits = []
